@@ -23,13 +23,13 @@ from _griffe.models import Attribute, Class, Docstring, Function, Module, Parame
 SUR = "\ud800"
 
 GOOGLE_LINES = [
-    "", "Summary.", "Args:", "Returns:", "Yields:", "Receives:", "Raises:", "Attributes:", "Examples:", "Note:", "Note: title", "Other Parameters:",
+    "", "Summary.", "Args:", "Args: ", "Returns:", "Yields:", "Receives:", "Raises:", "Attributes:", "Examples:", "Note:", "Note: title", "Other Parameters:",
     "Functions:", "Classes:", "Modules:", "Warns:",
     "    x: desc", "    x (int): desc", "    y (" + SUR + "): desc", "    (int): desc", "    int: desc", "    : desc", "    nocolon", "        continuation",
     "      odd indent", "  two", "    ", "```", "    >>> print(1)  # doctest: +SKIP", "    text", ":", "a:",
 ]
 NUMPY_LINES = [
-    "", "Summary.", "Parameters", "Returns", "Yields", "Receives", "Raises", "Warns", "Attributes", "Examples", "Other Parameters", "Deprecated",
+    "", "Summary.", "Parameters", "Returns", "Returns ", "Yields", "Receives", "Raises", "Warns", "Attributes", "Examples", "Other Parameters", "Deprecated",
     "Functions", "Classes", "Modules", "Note", "----------", "---", "x : int", "x, y : int, optional", "x : {1, 2}", "x", "int", "y : " + SUR, ": int",
     "    description", "  odd", "```", ">>> print(1)  # doctest: +SKIP", "1.0", "f(a, b)", ":", "    ",
 ]
@@ -260,7 +260,14 @@ def replay_parsers(witness, obligation, expects):
                     f = plain_text_problem(st, "\n".join(combo), {}, "none") or check_parse(st, "\n".join(combo), {}, "none")
                     if f:
                         return {"reproduced": True, "detail": f"{st} parser: {f}", "input": {"style": st, "text": "\n".join(combo)}, "signature": f"{st}:lines"}
-        return {"reproduced": False, "detail": "no failing plain-text docstring found"}
+        for st in ("numpy", "google", "sphinx"):
+            for text in corpus(st, 3):
+                if time.time() - t0 > budget:
+                    break
+                f = check_parse(st, text, {}, "none")
+                if f:
+                    return {"reproduced": True, "detail": f"{st} parser: {f}", "input": {"style": st, "text": text}, "signature": f"{st}:docstring-invariant"}
+        return {"reproduced": False, "detail": "no failing docstring found"}
     top = fname in ("parse_google", "parse_numpy", "parse_sphinx") or not hasattr(MODS[style], fname or "")
     is_reader = not top and (fname.startswith("_read_block") or fname in ("_consolidate_continuation_lines", "_parse_directive") or style == "sphinx")
     tried = 0
